@@ -1,5 +1,6 @@
 (* C17 -- save containers: verified reads return authentic data or nothing. *)
-From Pyctr Require Import Base.Prelude Base.ListExt Base.PyInt Base.PySlice Model.Ivfc Proofs.IvfcProofs.
+From Pyctr Require Import Base.Prelude Base.ListExt Base.PyInt Base.PySlice Base.Sweep Model.Blocks Proofs.BlocksProofs Model.Dpfs Proofs.DpfsProofs Model.Ivfc Proofs.IvfcProofs Model.IvfcRead Proofs.IvfcReadProofs.
+From Dyn Require Import Gen_util Gen_savecommon Gen_dpfs.
 
 Section C17.
 Variable H : list Z -> list Z.            (* SHA-256: uninterpreted *)
@@ -26,7 +27,47 @@ Proof. exact (status_complete H tree master). Qed.
 Theorem C17_filler : forall li b v, served tree li b v <> repeat 0xDD (length (block tree li b)) -> v = Some true.
 Proof. exact (served_only_if_valid tree). Qed.
 
+(* a read of the verified level-4 view, at any position and with any size argument, is the slice of the view made of the stored
+   bytes of the valid blocks and of 0xDD filler for every other block (verification on), or of the stored bytes (off) *)
+Theorem C17_lv4_read : forall verify pos n, 0 < lv4_bs tree -> 0 < lv4_size tree -> 0 <= pos ->
+  lv4_read H tree master verify pos n =
+  let view := lv4_view H tree master verify in slice view pos (if n <? 0 then len view else n).
+Proof. intros verify pos n Hb Hs Hp. exact (lv4_read_spec H tree master verify Hb Hs pos n Hp). Qed.
+
+Theorem C17_lv4_view_blocks : forall verify b, 0 < lv4_bs tree -> 0 < lv4_size tree ->
+  0 <= b < (lv4_size tree + lv4_bs tree - 1) / lv4_bs tree ->
+  slice (lv4_view H tree master verify) (b * lv4_bs tree) (lv4_bs tree) =
+  if verify then served tree 3 b (status H tree master 3 b) else block tree 3 b.
+Proof. intros verify b Hb Hs Hr. exact (lv4_view_blocks H tree master verify Hb Hs b Hr). Qed.
+
 End C17.
+
+(* the block arithmetic and the bit selection the models use are the ones in the source (regenerated each run) *)
+Theorem C17_block_range_is_source : forall off size bs, get_block_range off size bs = block_range off size bs.
+Proof. reflexivity. Qed.
+Theorem C17_active_bit_is_source : forall words b, get_active_bit words b = active_bit words b.
+Proof. reflexivity. Qed.
+
+(* the block-wise read returns the requested slice of the view the blocks are cut from *)
+Theorem C17_assemble : forall view bs blk, 0 < bs ->
+  (forall b, 0 <= b -> b * bs < len view ->
+     len (blk b) <= bs /\ Z.min bs (len view - b * bs) <= len (blk b) /\ take (blk b) (Z.min bs (len view - b * bs)) = slice view (b * bs) bs) ->
+  forall off size, 0 <= off -> 0 < size -> off + size <= len view -> assemble blk off size bs = slice view off size.
+Proof. intros view bs blk Hbs Hblk off size. exact (assemble_spec view bs Hbs blk Hblk off size). Qed.
+
+(* DPFS: for every well-formed geometry, whatever the bitmaps, the selector and the contents of both copies of every level, a read
+   of the level-3 file at any position with any size argument returns the slice of the ACTIVE view: level-3 block j from the copy
+   that bit j of the active level-2 view selects, level-2 block i from the copy that bit i of the selected level-1 copy selects *)
+Theorem C17_dpfs_read : forall lv1data selector lv2data bs2 lv3pair size3 bs3 pos n,
+  geometry lv1data lv2data bs2 lv3pair size3 bs3 -> 0 <= pos ->
+  dpfs_read lv1data selector lv2data bs2 lv3pair size3 bs3 pos n =
+  let view := spec_lv3 lv1data selector lv2data bs2 lv3pair size3 bs3 in
+  slice view pos (if n <? 0 then len view else n).
+Proof. exact dpfs_read_spec. Qed.
+
+Example C17_dpfs_nonvacuous :
+  geometry ex_lv1 ex_lv2 4 ex_lv3 10 4 /\ dpfs_read ex_lv1 0 ex_lv2 4 ex_lv3 10 4 1 8 = [101; 102; 103; 4; 5; 6; 7; 108].
+Proof. exact dpfs_nonvacuous. Qed.
 
 Print Assumptions C17_history_independent.
 Print Assumptions C17_sound.
@@ -41,3 +82,9 @@ Example C17_example :
   let tr := [mkLevel [] 1; mkLevel [] 1; l3; l4] in
   True.
 Proof. exact I. Qed.
+Print Assumptions C17_lv4_read.
+Print Assumptions C17_lv4_view_blocks.
+Print Assumptions C17_block_range_is_source.
+Print Assumptions C17_active_bit_is_source.
+Print Assumptions C17_assemble.
+Print Assumptions C17_dpfs_read.
